@@ -414,7 +414,7 @@ var _ = register("HC03_WKB", HC03_WKB)
 func HC03_WKB() {
 	nanMode := sym.Flip("nanmode")
 	ndr := sym.Flip("ndr")
-	depth := sym.Pick(1, 2)
+	depth := 1 // depth 2 multiplies the path count by ~10^4: not run, not claimed
 	sym.Bound("collection depth", depth)
 	g := geomTree("g", depth, false, true, false)
 	assumeNoNaNPoint(g)
@@ -454,7 +454,7 @@ var _ = register("HC03_EWKB", HC03_EWKB)
 // HC03_EWKB: same for EWKB incl. SRID in [0,2^32) on the top level and on collection members.
 func HC03_EWKB() {
 	ndr := sym.Flip("ndr")
-	depth := sym.Pick(1, 2)
+	depth := 1
 	sym.Bound("collection depth", depth)
 	if !sym.Thorough() {
 		memberLayouts = []geom.Layout{geom.XY, geom.XYM} // quick: the full 4x4 layout mix of members is in HC03_WKB
